@@ -177,7 +177,7 @@ JSON_JUNK = [None, True, False, 0, -1, 1e308, -1e308, 2 ** 53, 2 ** 31, -2 ** 31
              [[]], "1e999", 1e-320]
 
 
-def meta_mutants(rng, base, key, limit):
+def meta_mutants(rng, base, key, limit, rot=0):
     m0 = obs.thread_meta(key[2], key[1], key[0], app_id=1,
                          cpus=[c for l in base["desc"]["looms"] if l["name"] == key[0] for c in l["cpus"]],
                          require=histgen.require_of(base["enabled"]),
@@ -253,7 +253,29 @@ def meta_mutants(rng, base, key, limit):
     put("dup-keys", '{"version": 3, "version": 4, "ovni": {"part": "thread"}, "ovni": 5}')
     put("bom", "﻿" + json.dumps(m0))
     put("comments", "/* c */ " + json.dumps(m0) + " // x")
-    return stratify(rng, muts, limit)
+    out = stratify(rng, muts, limit)
+    # every string of the metadata grown to lengths around the powers of two (fixed-size buffers in the
+    # readers); the lengths rotate with the base so that three consecutive bases cover all of them
+    muts = []
+    for pi, path in enumerate(paths):
+        o = m0
+        for pp in path:
+            o = o[pp]
+        if not path or not isinstance(o, str):
+            continue
+        lens = STR_LENS if not limit else [STR_LENS[(rot * limit + pi + j) % len(STR_LENS)] for j in range(limit)]
+        for L in lens:
+            m = json.loads(json.dumps(m0))
+            q = m
+            for pp in path[:-1]:
+                q = q[pp]
+            pad = "0" if o[-1:].isdigit() else "x"
+            q[path[-1]] = (o + pad * L)[:L]
+            put("len-%s=%d" % (".".join(str(x) for x in path), L), m)
+    return out + muts
+
+
+STR_LENS = [15, 16, 17, 31, 32, 33, 63, 64, 65, 127, 128, 129, 255, 256, 257, 511, 512, 513, 1023, 1024, 1025, 4095, 4096, 4097]
 
 
 def offsets_mutants(base):
@@ -330,7 +352,7 @@ def run_base(bi):
     muts = []
     key = keys[bi % len(keys)]
     muts += stream_mutants(rng, base, key, lim)
-    muts += meta_mutants(rng, base, key, lim)
+    muts += meta_mutants(rng, base, key, lim, rot=bi)
     muts += offsets_mutants(base)
     try:
         # sanity: the unmutated base passes all four tools
@@ -415,7 +437,7 @@ def main(argv):
            "rule": "structure-aware mutants of valid multi-model traces (flags nibbles, jumbo size fields incl. values "
                    ">= 2^31, truncation at every offset of the last two events, payload shapes, jumbo data without NUL, "
                    "MCV bytes, extreme clocks, page-multiple file sizes, byte noise; every JSON type at every metadata "
-                   "position, loom_cpus shapes, mark definitions, loom names, require dictionaries, malformed JSON, "
+                   "position, every metadata string grown to lengths 2^k-1, 2^k, 2^k+1 (k = 4..12), loom_cpus shapes, mark definitions, loom names, require dictionaries, malformed JSON, "
                    "clock-offset tables), each run through ovniemu/ovnidump/ovnitop/ovnisort built with ASan+UBSan and "
                    "the exact-size heap stream buffer. evaluations = tool runs; distinct_nontrivial = mutation kinds",
            "samples": [{"kind": k, "mutants": c} for k, c in sorted(kinds.items())[:40]],
